@@ -24,8 +24,9 @@ CLAIMED = {
  "C03": ("§4 C03",
    "Bounded model checking of jaq-core's single-output fast paths against a counting source iterator with an ARBITRARY lawful size_hint: "
    "next_if_one, map_with and collect_if_once never consume an item of a stream that may have more than one pending output, and map_with "
-   "consumes exactly k source items for k outputs; jaq's own Explode iterator reports a lawful size_hint at every step (all 3-byte strings). Narrow: every interpreter arm (Comma, Alt, label, try), flat_map_* (undecided: CBMC's "
-   "over-approximated dyn dispatch), Stack, the lazy list, first/limit, inputs and the CLI loop are outside the claim.",
+   "consumes exactly k source items for k outputs; jaq's own Explode iterator reports a lawful size_hint at every step (all 3-byte strings); the real limit! / first! / last! macros, driven by that counting source, pull f exactly once per "
+   "output for EVERY isize count (limit never computes the ($n+1)-th output, first computes one, last stops at the first error). Narrow: every interpreter arm (Comma, Alt, label, try), flat_map_* (undecided: CBMC's "
+   "over-approximated dyn dispatch), Stack, the lazy list, nth/isempty/any/all (defined in jq), inputs and the CLI loop are outside the claim.",
    "Sources of <= 3 u8 items; instantiation Iterator = harness type Src. Thorough tier retries the flat-map, Stack and lazy-list harnesses under a 40 min cap."),
  "C05": ("§4 C05",
    "Bounded model checking of panic-freedom (Kani's overflow / cast / bounds / unwrap checks, dev-profile semantics) for jaq's own numeric kernels: "
@@ -68,6 +69,15 @@ CLAIMED = {
    "float epochs: NaN rejected, result == trunc(f*1e6); E2: no arithmetic panic site in the time functions. "
    "Narrow: jiff's calendar arithmetic vs an independent days-from-civil, strftime/strptime, ISO text, time zones, and mktime/gmtime's zoned conversions are outside the claim.",
    "jiff::Error's Display stubbed; jiff's own range checks are executed (DateTime::new) but Timestamp::from_second/from_microsecond error paths do not decide and are outside."),
+ "C11": ("§4 C11",
+   "Bounded model checking of the natively implemented stream combinators, i.e. the REAL macros limit!, skip!, first!, last!, while_gtz! and the generator range() of jaq-core/src/funs.rs, "
+   "instantiated with a harness-side context whose filter argument is a counting source: limit($n; f) is the first min($n, length) items for EVERY isize $n and pulls f exactly once per output (never the ($n+1)-th); "
+   "skip($n; f) is the errors among the first $n items followed by the rest ($n in {isize::MIN.., -1, 0, 1, 2, 3, 4, isize::MAX} as literals); hence limit ++ skip = f on error-free streams; first / last = first item / last item or first error; "
+   "range($from; $to; $by) on machine integers obeys `if TEST then $from, range($from+$by; ...) else empty` from EVERY integer state (< / > / != by the sign of $by), an overflowing step is reported once and ends the stream. "
+   "Streams of <= 3 items (6 thorough), each an output or an error. Narrow: the same macros' `paths` instances, range on floats / strings / arrays, and everything defined in jq (defs.jq: range/1,2, repeat, recurse, while, until, select, isempty, all, any, nth, add) "
+   "or by the fold engine (reduce / foreach: undecided, attempt) are outside the claim.",
+   "V = MV (machine integers, exact-or-error arithmetic); item type Result<u8, Error<MV>> so that no other trait object in the crate shares the virtual call's signature. The generator's step relation is decided two pulls at a time "
+   "(a third pull exhausts 16 GB), which observes the successor state through one further output only."),
  "C10": ("§4 C10",
    "Bounded model checking of the position kernels (PosUsize::wrap, abs_bound, abs_index, skip_take, Val::range_int, Num::as_pos_usize) "
    "against an independent i128 position model: for ALL usize lengths and ALL signed positions (full usize magnitude, so big-integer "
@@ -84,7 +94,6 @@ NA = {
  "C04": "stack depth and retained heap as a function of iteration count are not assertions over program states a bounded model checker encodes; the call classification producing them lives in compile.rs (out of reach, see C01)",
  "C06": "absence of system calls over all filters and documents is a whole-program call-graph property including third-party decoders; Kani cannot execute FFI or I/O and nothing in this technique family observes the system-call boundary",
  "C07": "print-then-parse needs core::fmt on the write side (formatting is the subject and cannot be stubbed) and hifijson/Bytes on the read side: the 1-byte to_json -> parse_single probe was undecided at 25 min / 7.6 GB, and the split through an independent string-grammar model (writer macros alone: timeout 600 s on one symbolic byte; parse_string alone: out of memory at 12 GB on one symbolic byte, 77 s on one concrete byte) does not decide either; not claimed (DESIGN.md §4)",
- "C11": "fold::fold and funs::range run on boxed result streams with Exn; the same shapes (Results / Exn / Vec) did not decide for cmp_by and flat_map_then within 300 s (DESIGN.md §2.3); not claimed",
  "C16": "module loading is file-system calls (canonicalize, read_to_string), a typed arena and the compiler's B-tree maps; no symbolic file system is available",
  "C17": "process-level behaviour (stdout bytes, exit status); Cli::parse is bound to std::env::ArgsOs and cannot be driven symbolically without generalising its type",
  "C18": "quantifies over crash points and file-system states during tempfile/rename/set_permissions; no symbolic file system, and Kani cannot execute the calls",
